@@ -134,6 +134,7 @@ def run_one(seed, i, tier):
     res = {"viol": None, "steps": out["steps"], "probes": {"preempt_in_op": out["preempt_in_op"], "lock_contended": out["contended"],
                                                              "switches": out["switches"], "reader_ops": nread},
            "faults": {"preemption": out["switches"]}, "stats": {"ops": len(out["history"])}}
+    res["logd"] = digest(jsonable([payload["progs"], out["choices"], _thr.describe_history(out), out["final"]]))
     if out["preempt_in_op"]:
         res["sig"] = digest([payload["shape"], [[(o["h"], o["name"]) for o in p] for p in payload["progs"]], out["switch_sites"]])
     if i % 499 == 0 or v:
